@@ -2,6 +2,11 @@
 
 participation_ratio, local_vector_alignment, phase_quotient, divergence_curl, vibrability, vector_decomposition_sq,
 vector_fft_corr against literal double-loop transcriptions of docs/vectors.md (mc/ref/hessvec.py).
+
+Round 4 (docs/STRENGTHEN_TASK2.md; helpers in mc/ref/c15y.py):
+  C15.forms     L5 storage types of the fields / L7 particles displaced by whole cell vectors / L8 dt = 0 / output-file names (coverage gaps)
+  C15.dilation  L9 absolute scale (2^-33, 2^27; fields of norm 2^-40)
+  C15.sequence  L6 call words in forked children with re-imported library modules, output files of earlier calls left in place
 """
 import itertools
 import os
@@ -12,6 +17,8 @@ from mc import alphabets as A
 from mc.harness import Result, Sub, digest
 from mc.ref import hessvec as HV
 from mc.ref import c15x as X
+from mc.ref import c15y as Y
+from mc.ref import c03x as X3
 from mc.ref.base import frac_tie_margin, mk_snap, mk_snaps, write_neighbor_file
 
 ASSUMPTIONS = [
@@ -32,6 +39,20 @@ ASSUMPTIONS = [
     "per size; neighbour lists there are harness-written formula lists (1..4 neighbours, one particle with 70 or 200 = the reader's default "
     "Nmax); coordination numbers never exceed 200 (the documented maximum); argument forms there: column-major fields / eigenvector matrices, "
     "non-contiguous field views, int32 wave vectors (utils.wavevector's dtype), ppp given as a list",
+    "round 4 (C15.forms, C15.sequence): fields are REAL (the documentation speaks of eigenvector and velocity fields; for a complex field the library's PR uses e*e, "
+    "not |e|^2, and divergence_curl raises - resolved towards the implementation); a real field may be stored as float32 / int64 / int32 / int8 (values small enough "
+    "not to overflow their own products) - float32 storage only has to give float32 accuracy (2e-6 relative), integer storage the exact result; zero vectors on some "
+    "particles, zero eigenvector components and fields vanishing on whole frames' sub-blocks are inside the domain (they were in the alphabets from the start: {-1,0,1}^(N d)); "
+    "an all-zero field / q = 0 / a zero frequency are not (0/0)",
+    "L7: positions that differ by whole cell vectors along periodic axes describe the same configuration (unfolded xu yu zu dump columns): divergence / curl must not "
+    "change (1e-9 of the scale), the Fourier transform for q = 2 pi m / L neither (compared at the documented round(8))",
+    "vector_decomposition_sq(outputfile=name): the group table is written to `name` if it ends in '.csv', else to name + '.csv' ('filename.csv' in the docstring); "
+    "vector_fft_corr(outputfile='') (the default): no file is demanded, only the returned tables are compared; dt = 0 is a legal time step (all times 0)",
+    "C15.sequence: every call must return / write what the same call does when made first in a fresh process, whatever ran before and whatever files earlier calls "
+    "left under the same names",
+    "L9 (C15.dilation): divergence / curl of (s r, s H, s u) = s^2 x those of (r, H, u); PR and phase quotient of t u = those of u, alignment of t u = t^2 x alignment, for "
+    "t = 2^-40 (norms ~1e-12): a field is not 'zero' because it is small in absolute terms; the Fourier-space routines round to 8 decimals (documented) and are therefore "
+    "only examined at the ordinary scale",
     "vector_fft_corr: the cell is the same in every frame (the routine adds the per-frame |q|-group tables index by index and labels the "
     "wave vectors with the cell of frame 0, so a varying cell has no documented meaning); positions and fields differ in every frame",
 ]
@@ -280,13 +301,33 @@ def run_divcurl(case):
     if frac_tie_margin(diffs, H, ppp) < 1e-7:
         return R.screen()
     write_neighbor_file("nl_dc.dat", [nl])
+    pos_wrapped = pos
+    if case.get("unwrap"):
+        pos = Y.unwrap(pos, H, ppp)  # L7: whole cell vectors added along the periodic axes
+        sg["unwrapped"] = True
     snap = mk_snap(pos, H, [1] * n)
+    if case.get("posform") == "F":
+        from PyMatterSim.reader.reader_utils import SingleSnapshot
+
+        snap = SingleSnapshot(snap.timestep, snap.nparticle, snap.particle_type, np.asfortranarray(snap.positions), snap.boxlength, snap.boxbounds, snap.realbounds, snap.hmatrix)
+        sg["posform"] = "F"
+    ppp_in = {"list": ppp.tolist(), "i32": ppp.astype(np.int32), "i8": ppp.astype(np.int8)}.get(case.get("pppform"), ppp)
+    udt = case.get("udtype")
+    if udt:
+        sg["udtype"] = udt
+    rt = 2e-6 if udt == "float32" else 1e-9
     outs = []
-    for (name, u, Am) in dc_fields(n, d, pos):
+    for (name, u, Am) in dc_fields(n, d, pos_wrapped):
+        if udt:
+            u, uref = Y.cast_field(u, udt)
+        else:
+            uref = u
         u0 = u.copy()
-        res = divergence_curl(snap, u, ppp, "nl_dc.dat")
-        ediv, ecurl = HV.ref_divcurl(pos, H, ppp, u, nl)
-        scale = 1.0 + float(np.abs(u).max()) * float(np.abs(H).max())
+        res = divergence_curl(snap, u, ppp_in, "nl_dc.dat")
+        ediv, ecurl = HV.ref_divcurl(pos, H, ppp, uref, nl)
+        scale = 1.0 + float(np.abs(uref).max()) * float(np.abs(H).max())
+        if rt > 1e-9:
+            scale *= 2e5  # float32 field: float32 accuracy of the differences u_j - u_i
         fs = dict(sg, field=name.rstrip("0123456789"))
         if d == 2:
             if isinstance(res, tuple):
@@ -298,11 +339,15 @@ def run_divcurl(case):
                 R.fail("3D: (divergence, curl) expected", sig=dict(fs, clause="return_3d"))
                 break
             gdiv, gcurl = np.asarray(res[0]), np.asarray(res[1])
-        if gdiv.shape != (n,) or not np.allclose(gdiv, ediv, rtol=1e-9, atol=1e-11 * scale):
+        if gdiv.shape != (n,) or not np.allclose(gdiv, ediv, rtol=rt, atol=1e-11 * scale):
             R.fail("divergence != neighbour mean of R_ij . u_ij", sig=dict(fs, clause="divergence"), exp=ediv, obs=gdiv)
-        if d == 3 and (gcurl.shape != (n, 3) or not np.allclose(gcurl, ecurl, rtol=1e-9, atol=1e-11 * scale)):
+        if d == 3 and (gcurl.shape != (n, 3) or not np.allclose(gcurl, ecurl, rtol=rt, atol=1e-11 * scale)):
             R.fail("curl != neighbour mean of R_ij x u_ij", sig=dict(fs, clause="curl"), exp=ecurl, obs=gcurl)
-        if Am is not None and not ppp.any():
+        if case.get("unwrap"):
+            wdiv, wcurl = HV.ref_divcurl(pos_wrapped, H, ppp, uref, nl)
+            if not np.allclose(gdiv, wdiv, rtol=max(rt, 1e-8), atol=1e-9 * scale) or (d == 3 and not np.allclose(gcurl, wcurl, rtol=max(rt, 1e-8), atol=1e-9 * scale)):
+                R.fail("divergence / curl change when particles are displaced by whole cell vectors along periodic axes", sig=dict(fs, clause="unwrapped"), exp=wdiv, obs=gdiv)
+        if Am is not None and not ppp.any() and not udt:
             cdiv, ccurl = HV.linear_closed_form(pos, Am, nl)
             if not np.allclose(gdiv, cdiv, rtol=1e-9, atol=1e-10 * scale):
                 R.fail("linear field u = A r: divergence != closed form mean_j r^T A r", sig=dict(fs, clause="divergence_closed"), exp=cdiv, obs=gdiv)
@@ -360,11 +405,18 @@ def run_vib(case):
     V = bases(n * d)[case["basis"]][:, case["cols"]].copy()
     fr = np.array(case["freq"], float)
     sg = {"d": d, "basis": case["basis"], "allmodes": len(case["cols"]) == n * d}
+    if case.get("vdtype"):
+        V = V.astype(case["vdtype"])  # identity / reversed bases are integral; float32 keeps them exact
+        sg["vdtype"] = case["vdtype"]
+    if case.get("fdtype"):
+        fr = fr.astype(case["fdtype"])
+        sg["fdtype"] = case["fdtype"]
     V0, f0 = V.copy(), fr.copy()
     out = "vib_out.npy" if case["save"] else ""
     got = np.asarray(vibrability(fr, V, n, outputfile=out))
     exp = HV.ref_vibrability(fr, V, n)
-    if got.shape != (n,) or not np.allclose(got, exp, rtol=1e-9, atol=1e-12):
+    f32 = "float32" in (case.get("vdtype"), case.get("fdtype"))  # float32 input: float32 accuracy of the squares is all that can be asked
+    if got.shape != (n,) or not np.allclose(got, exp, rtol=2e-6 if f32 else 1e-9, atol=1e-6 if f32 else 1e-12):
         R.fail("vibrability != sum_l |e_{l,i}|^2 / omega_l^2", sig=dict(sg, clause="vibrability"), exp=exp, obs=got)
     if case["save"]:
         if not os.path.exists(out) or not np.array_equal(np.load(out), got):
@@ -488,22 +540,40 @@ def run_decomp(case):
     v = np.array(case["field"], float).reshape(n, d)
     qint = np.array(QLISTS[d][case["qname"]])
     sg = {"d": d, "box": case["box"], "qlist": case["qname"]}
-    ref = HV.ref_decomposition(pos, L, qint, v)
+    if case.get("udtype"):
+        v, vref = Y.cast_field(v, case["udtype"])
+        sg["udtype"] = case["udtype"]
+    else:
+        vref = v
+    ref = HV.ref_decomposition(pos, L, qint, vref)
     if key_margin(ref["qn"]) < 1e-4:
         return R.screen()
+    if case.get("unwrap"):
+        pos = Y.unwrap(pos, np.diag(L), [1] * d)  # L7: exp(-i q.(r + n L)) = exp(-i q.r) for q = 2 pi m / L: the transform must not change
+        sg["unwrapped"] = True
     snap = mk_snap(pos, np.diag(L), [1] * n)
     v0, q0 = v.copy(), qint.copy()
-    out = "dec_out" if case["csv"] else ""
+    out = case.get("ofile") if case.get("ofile") is not None else ("dec_out" if case["csv"] else "")
+    if case.get("ofile") is not None:
+        sg["outputfile"] = "with_csv_ending" if out.endswith(".csv") else ("dotted" if "." in out else "plain")
+    path = Y.csv_path(out) if out else None
+    for stale in ([path, out] if out else []):
+        if os.path.exists(stale):
+            os.remove(stale)
     tab, ave = vector_decomposition_sq(snap, qint, v, outputfile=out)
     got = compare_decomp(R, sg, tab, ave, ref, d)
-    if case["csv"]:
-        if not os.path.exists("dec_out.csv"):
-            R.fail("outputfile + '.csv' not written", sig=dict(sg, clause="csv"))
+    if out:
+        if not os.path.exists(path):
+            R.fail(f"outputfile={out!r}: {path} not written", sig=dict(sg, clause="csv"))
         else:
-            back = pd.read_csv("dec_out.csv")
+            back = pd.read_csv(path)
             if list(back.columns) != list(ave.columns) or back.shape != ave.shape or np.abs(back.values - ave.values).max() > 0.5e-8 + 1e-11 * (1.0 + np.abs(ave.values).max()):
                 R.fail("CSV differs from the returned group table beyond %.8f", sig=dict(sg, clause="csv"))
-            os.remove("dec_out.csv")
+            os.remove(path)
+        for wrong in (out + ".csv.csv", out if not out.endswith(".csv") else None):
+            if wrong and os.path.exists(wrong):
+                R.fail(f"outputfile={out!r}: unexpected file {wrong}", sig=dict(sg, clause="csv_name"))
+                os.remove(wrong)
     if not (np.array_equal(v, v0) and np.array_equal(qint, q0) and np.array_equal(snap.positions, pos)):
         R.fail("input modified", sig=dict(sg, clause="input_modified"))
     if got is not None:
@@ -560,11 +630,25 @@ def check_history(R, case, hist):
     steps = STEPS[case["spacing"]][:T]
     frames = [frame_positions(case, t) for t in range(T)]
     vecs = np.array([np.array(LETTERS[d][k], float).reshape(n, d) for k in hist])
-    snaps = mk_snaps([f.tolist() for f in frames], np.diag(L), [1] * n, steps=steps)
     sg = {"d": d, "spacing": case["spacing"] if T > 2 else "short", "frames": "one" if T == 1 else "many"}
+    vref = vecs
+    if case.get("udtype"):
+        vecs, vref = Y.cast_field(vecs * (4 if case["udtype"].startswith("int") else 1), case["udtype"])  # x4: the half-integer letters become integers
+        sg["udtype"] = case["udtype"]
+    lib_frames = frames
+    if case.get("unwrap"):
+        # L7: particles that left the cell in LATER frames stay unfolded (xu yu zu): frame t > 0 carries whole box lengths, frame 0 does not
+        lib_frames = [frames[0]] + [Y.unwrap(frames[t], np.diag(L), [1] * d, phase=t) for t in range(1, T)]
+        sg["unwrapped"] = True
+    of = case.get("ofile", "corr")
+    if of != "corr":
+        sg["outputfile"] = "empty" if of == "" else "dotted"
+    if case["dt"] == 0:
+        sg["dt_zero"] = True
+    snaps = mk_snaps([np.asarray(f).tolist() for f in lib_frames], np.diag(L), [1] * n, steps=steps)
     v0 = vecs.copy()
-    res = vector_fft_corr(snaps, qint, vecs, dt=case["dt"], outputfile="corr")
-    refs = [HV.ref_decomposition(frames[t], L, qint, vecs[t]) for t in range(T)]
+    res = vector_fft_corr(snaps, qint, vecs, dt=case["dt"], outputfile=of)
+    refs = [HV.ref_decomposition(frames[t], L, qint, vref[t]) for t in range(T)]
     texp = [(s - steps[0]) * case["dt"] for s in steps]
     dig = []
     if sorted(res.keys()) != ["FFT", "L_FFT", "T_FFT"]:
@@ -600,8 +684,8 @@ def check_history(R, case, hist):
             if got[0] != 1.0:
                 R.fail(f"{header}: C(0) = {got[0]!r} != 1", sig=dict(sg, clause="lag0", header=header))
                 break
-        if not os.path.exists(f"corr.{header}.npy") or not np.array_equal(np.load(f"corr.{header}.npy"), tab.values, equal_nan=True):
-            R.fail(f"corr.{header}.npy differs from the returned table", sig=dict(sg, clause="npy", header=header))
+        if of and (not os.path.exists(f"{of}.{header}.npy") or not np.array_equal(np.load(f"{of}.{header}.npy"), tab.values, equal_nan=True)):
+            R.fail(f"{of}.{header}.npy missing or different from the returned table", sig=dict(sg, clause="npy", header=header))
         dig.append(np.nan_to_num(vals[:, d + 1 :], nan=-9.0))
     # spectra file: frame mean of the group means
     keys = np.round(refs[0]["qn"], 8)
@@ -610,15 +694,17 @@ def check_history(R, case, hist):
         gk, gm = HV.group_means(np.round(refs[t]["qn"], 8), [refs[t]["S"], refs[t]["ST"], refs[t]["SL"]])
         acc = acc + gm
     acc = acc / T
-    if not os.path.exists("corr.spectra.csv"):
-        R.fail("corr.spectra.csv not written", sig=dict(sg, clause="spectra_file"))
+    if not of:
+        pass  # outputfile '' (the default): the documentation names no file for it; only the returned tables are compared
+    elif not os.path.exists(of + ".spectra.csv"):
+        R.fail(f"{of}.spectra.csv not written", sig=dict(sg, clause="spectra_file"))
     else:
-        sp = pd.read_csv("corr.spectra.csv")
+        sp = pd.read_csv(of + ".spectra.csv")
         Fm = max(float(np.abs(r["F"]).max()) for r in refs)
         if list(sp.columns) != ["q", "Sq", "Sq_T", "Sq_L"] or len(sp) != len(gk) or np.abs(sp.values[:, 0] - gk).max() > 1e-8 \
                 or np.abs(sp.values[:, 1:] - acc).max() > 1e-7 * (1 + Fm * Fm):
             R.fail("spectra file != frame mean of the |q|-group means of Sq, Sq_T, Sq_L", sig=dict(sg, clause="spectra"), exp=acc, obs=sp.values)
-    for f in ("corr.spectra.csv", "corr.FFT.npy", "corr.T_FFT.npy", "corr.L_FFT.npy"):
+    for f in (of + ".spectra.csv", of + ".FFT.npy", of + ".T_FFT.npy", of + ".L_FFT.npy"):
         if os.path.exists(f):
             os.remove(f)
     if not np.array_equal(vecs, v0):
@@ -966,6 +1052,396 @@ def scale_corr(case):
     return R
 
 
+# ============================================================================================== C15.forms
+# Round 4: storage types of the fields (L5), particles displaced by whole cell vectors (L7), explicit zero dt (L8), output-file names (coverage gaps)
+def gen_forms(tier, seed):
+    q = tier == "quick"
+    for (n, d, B) in ((3, 2, 4), (2, 3, 4)):
+        for dt in Y.FIELD_DTYPES:
+            for b in range(B):
+                yield {"kind": "pr", "n": n, "d": d, "dtype": dt, "b": b, "B": B}
+    for nl in topo_core(3, 8):
+        for dt in Y.FIELD_DTYPES:
+            for b in range(2):
+                yield {"kind": "neigh", "n": 3, "d": 2, "fkind": "all", "B": 2, "b": b, "nl": [list(x) for x in nl], "dtype": dt}
+    for nl in topo_core(3, 4):
+        for dt in Y.FIELD_DTYPES:
+            yield {"kind": "neigh", "n": 3, "d": 3, "fkind": "core", "B": 1, "b": 0, "nl": [list(x) for x in nl], "dtype": dt}
+    variants = [{"udtype": dt} for dt in Y.FIELD_DTYPES] + [{"posform": "F"}, {"pppform": "list"}, {"pppform": "i32"}, {"pppform": "i8"}, {"unwrap": True},
+                                                            {"unwrap": True, "udtype": "int64", "posform": "F"}]
+    for n in (3,) if q else (3, 4):
+        for d in (2, 3):
+            g = np.array(A.generic_points(seed, n, d, tag=f"c15dc{n}{d}_"))
+            for cell in ("orth", "tri"):
+                H = cell15(d, cell)
+                pos = (g @ H).tolist()
+                for mask in A.masks(d):
+                    for var in variants:
+                        if var.get("unwrap") and not any(mask):
+                            continue
+                        for nl in topo_core(n, 6 if q else 12):
+                            yield dict({"kind": "divcurl", "n": n, "d": d, "cell": cell, "H": H.tolist(), "pos": pos, "ppp": mask, "nl": [list(x) for x in nl], "order": "asc"}, **var)
+    for (n, d) in ((2, 2), (2, 3)):
+        nd = n * d
+        for bname in ("identity", "reverse", "householder"):
+            for k in (1, nd - 1, nd):
+                for cols in list(itertools.combinations(range(nd), k))[:6]:
+                    for vdt, fdt in (("float32", None), ("int64", None), (None, "int64"), ("int32", "int32"), ("float32", "float32")):
+                        if vdt and vdt.startswith("int") and bname == "householder":
+                            continue
+                        fr = [FREQS[(c + 1) % 2] for c in range(k)] if fdt and fdt.startswith("int") else [FREQS[c % 3] for c in range(k)]
+                        c = {"kind": "vib", "n": n, "d": d, "basis": bname, "cols": list(cols), "freq": fr, "save": False}
+                        if vdt:
+                            c["vdtype"] = vdt
+                        if fdt:
+                            c["fdtype"] = fdt
+                        yield c
+    for (n, d, kind) in ((3, 2, "all"), (2, 3, "core")):
+        for bk in ("cube", "rect"):
+            L = box_for(d, bk)
+            pos = positions(seed, n, d, L, "dec" + bk)
+            fl = field_list(kind, n, d)
+            for qn in ("shells", "mixed"):
+                for k, f in enumerate(fl[:: (59 if q else 7)]):
+                    base = {"kind": "decomp", "n": n, "d": d, "box": bk, "L": L, "pos": pos, "qname": qn, "field": list(f), "csv": False}
+                    for dt in Y.FIELD_DTYPES:
+                        yield dict(base, udtype=dt)
+                    yield dict(base, unwrap=True)
+                    yield dict(base, unwrap=True, udtype="int32", ofile="dec.run2")
+                    for of in ("dec_x.csv", "dec_x", "dec.v2", "dec.csv.bak"):
+                        yield dict(base, ofile=of)
+    for d in (2, 3):
+        L = box_for(d, "cube")
+        base = positions(seed, 3, d, L, "corr")
+        for spacing in ("even", "uneven"):
+            for var in ({"dt": 0.0}, {"dt": 0}, {"udtype": "int64"}, {"udtype": "float32"}, {"unwrap": True}, {"ofile": ""}, {"ofile": "run.v2"},
+                        {"unwrap": True, "udtype": "int32", "ofile": "", "dt": 0.0}):
+                for first in range(3):
+                    c = {"kind": "corr", "d": d, "L": L, "base": base, "qname": "shells", "spacing": spacing, "moving": True, "dt": 0.002, "first": first, "nlet": 3,
+                         "depth": 3 if not q else 2, "seed": seed}
+                    c.update(var)
+                    yield c
+
+
+def forms_real(case):
+    """PR / alignment / phase quotient of integer-valued fields stored as float32 / int64 / int32 / int8"""
+    from PyMatterSim.static.vector import local_vector_alignment, participation_ratio, phase_quotient
+
+    R = Result()
+    n, d, dt = case["n"], case["d"], case["dtype"]
+    sg = {"kind": case["kind"], "d": d, "dtype": dt}
+    rt = 2e-6 if dt == "float32" else 1e-12
+    outs = []
+    if case["kind"] == "pr":
+        fs = field_list("all", n, d)[case["b"]:: case["B"]]
+        for f in fs:
+            v, vref = Y.cast_field(np.array(f).reshape(n, d), dt)
+            v0 = v.copy()
+            got = participation_ratio(v)
+            exp = HV.ref_pr(vref)
+            if not np.isfinite(got) or abs(got - exp) > rt:
+                R.fail(f"PR of a field stored as {dt} = {got!r}, (sum|e|^2)^2/(N sum|e|^4) = {exp!r}", sig=dict(sg, clause="formula"), exp=exp, obs={"field": f, "got": float(got)})
+                break
+            if not (1.0 / n - rt <= got <= 1.0 + rt):
+                R.fail(f"PR = {got!r} outside [1/N, 1]", sig=dict(sg, clause="range"))
+            if not np.array_equal(v, v0):
+                R.fail("input modified", sig=dict(sg, clause="input_modified"))
+            outs.append(float(got))
+        R.elem = len(outs)
+    else:
+        nl = case["nl"]
+        write_neighbor_file("nl_fr.dat", [nl])
+        fs = field_list(case["fkind"], n, d)[case["b"]:: case["B"]]
+        for f in fs:
+            v, vref = Y.cast_field(np.array(f).reshape(n, d), dt)
+            v0 = v.copy()
+            got = np.asarray(local_vector_alignment(v, "nl_fr.dat"))
+            exp = HV.ref_alignment(vref, nl)
+            if got.shape != exp.shape or not np.allclose(got, exp, rtol=1e-9, atol=1e-11):
+                R.fail(f"alignment of a field stored as {dt} != mean neighbour dot product", sig=dict(sg, clause="alignment"), exp=exp, obs={"field": f, "got": got})
+                break
+            num, den = HV.ref_pq(vref, nl)
+            if den != 0:
+                pq = float(phase_quotient(v, "nl_fr.dat"))
+                if not np.isfinite(pq) or abs(pq - num / den) > max(rt, 1e-12):
+                    R.fail(f"PQ of a field stored as {dt} = {pq!r}, sum dots / sum |dots| = {num / den!r}", sig=dict(sg, clause="pq"), exp=num / den, obs={"field": f, "got": pq})
+                    break
+                outs.append(pq)
+            if not np.array_equal(v, v0):
+                R.fail("input modified", sig=dict(sg, clause="input_modified"))
+            outs.append(float(got.sum()))
+        os.remove("nl_fr.dat")
+        R.elem = len(outs)
+    R.outcome(np.array(outs))
+    R.nontrivial = len(set(np.round(outs, 9))) > 1
+    return R
+
+
+def run_forms(case):
+    k = case["kind"]
+    if k in ("pr", "neigh"):
+        return forms_real(case)
+    return {"divcurl": run_divcurl, "vib": run_vib, "decomp": run_decomp, "corr": run_corr}[k](case)
+
+
+# ============================================================================================ C15.dilation
+# L9 absolute scale.  Positions, cell and field multiplied by s = 2^-33 / 2^27: divergence and curl (neighbour means of R.U and R x U) scale by s^2; fields multiplied by
+# t = 2^-40 (norms of 1e-12): PR and the phase quotient are scale-free, the alignment scales by t^2, the vibrability by t^2 (eigenvectors) and 1/s^2 (frequencies).
+# The Fourier-space routines round their output to 8 decimals (documented), which is not scale-covariant: not part of this slice.
+DILATIONS = [2.0 ** -33, 2.0 ** 27]
+TINY = 2.0 ** -40
+
+
+def gen_dilation(tier, seed):
+    for si in range(len(DILATIONS)):
+        for n in (3, 4):
+            for d in (2, 3):
+                g = np.array(A.generic_points(seed, n, d, tag=f"c15dc{n}{d}_"))
+                for cell in ("orth", "tri"):
+                    H = cell15(d, cell)
+                    for mask in A.masks(d):
+                        for nl in topo_core(n, 6):
+                            yield {"kind": "divcurl", "n": n, "d": d, "cell": cell, "H": H.tolist(), "pos": (g @ H).tolist(), "ppp": mask, "nl": [list(x) for x in nl], "dil": si}
+    for (n, d, B) in ((3, 2, 8), (2, 3, 8)):
+        for b in range(B):
+            for nl in topo_core(n, 4):
+                yield {"kind": "real", "n": n, "d": d, "b": b, "B": B, "nl": [list(x) for x in nl]}
+    for (n, d) in ((2, 2), (2, 3)):
+        for bname in ("identity", "householder", "nonorthogonal"):
+            for k in (1, n * d):
+                for si in range(len(DILATIONS)):
+                    yield {"kind": "vib", "n": n, "d": d, "basis": bname, "k": k, "dil": si}
+
+
+def run_dilation(case):
+    from PyMatterSim.static import vector as VV
+
+    R = Result()
+    kind = case["kind"]
+    if kind == "divcurl":
+        n, d = case["n"], case["d"]
+        sc = DILATIONS[case["dil"]]
+        H, pos, ppp, nl = np.array(case["H"]), np.array(case["pos"]), np.array(case["ppp"]), case["nl"]
+        sg = {"kind": kind, "d": d, "cell": case["cell"], "periodic": bool(ppp.any()), "scale": "tiny" if sc < 1 else "huge"}
+        diffs = np.array([pos[j] - pos[i] for i in range(n) for j in nl[i]])
+        if frac_tie_margin(diffs, H, ppp) < 1e-7:
+            return R.screen()
+        write_neighbor_file("nl_dl.dat", [nl])
+        outs = []
+        for (name, u, Am) in dc_fields(n, d, pos):
+            base = VV.divergence_curl(mk_snap(pos, H, [1] * n), u, ppp, "nl_dl.dat")
+            got = VV.divergence_curl(mk_snap(pos * sc, H * sc, [1] * n), u * sc, ppp, "nl_dl.dat")
+            b0, g0 = (np.asarray(base), np.asarray(got)) if d == 2 else (np.column_stack((base[0], base[1])), np.column_stack((got[0], got[1])))
+            ref = np.column_stack(HV.ref_divcurl(pos, H, ppp, u, nl)) if d == 3 else HV.ref_divcurl(pos, H, ppp, u, nl)[0]
+            scale = 1.0 + float(np.abs(u).max()) * float(np.abs(H).max())
+            if g0.shape != b0.shape or not np.allclose(g0 / sc / sc, b0, rtol=1e-9, atol=1e-11 * scale) or not np.allclose(g0 / sc / sc, ref, rtol=1e-9, atol=1e-11 * scale):
+                R.fail(f"divergence / curl of the configuration and field multiplied by {sc}, divided by scale^2, differ from the undilated values (field {name})",
+                       sig=dict(sg, clause="scale_square", field=name.rstrip("0123456789")), exp=b0, obs=g0 / sc / sc)
+            outs.append(b0)
+        os.remove("nl_dl.dat")
+        R.outcome(np.array(outs), nd=7)
+        R.elem = len(outs) * n * (1 if d == 2 else 4)
+        return R
+    if kind == "real":
+        n, d, nl = case["n"], case["d"], case["nl"]
+        sg = {"kind": kind, "d": d, "scale": "norm_1e-12"}
+        write_neighbor_file("nl_dl.dat", [nl])
+        outs = []
+        for f in field_list("all", n, d)[case["b"]:: case["B"]]:
+            v = np.array(f, float).reshape(n, d) * np.array(GRADE[:n])[:, None]
+            pr0, pr1 = VV.participation_ratio(v), VV.participation_ratio(v * TINY)
+            if not (np.isfinite(pr1) and abs(pr1 - pr0) <= 1e-12 and abs(pr1 - HV.ref_pr(v)) <= 1e-12):
+                R.fail(f"PR of a field of norm ~1e-12 = {pr1!r}, of the same field at norm ~1 = {pr0!r}", sig=dict(sg, clause="pr"), exp=pr0, obs={"field": f, "got": float(pr1)})
+                break
+            a0, a1 = np.asarray(VV.local_vector_alignment(v, "nl_dl.dat")), np.asarray(VV.local_vector_alignment(v * TINY, "nl_dl.dat"))
+            if a1.shape != a0.shape or not np.array_equal(a1, a0 * TINY * TINY):
+                R.fail("alignment of a field multiplied by 2^-40 != 2^-80 x alignment (exact in binary floating point)", sig=dict(sg, clause="alignment"), exp=a0 * TINY * TINY, obs=a1)
+                break
+            num, den = HV.ref_pq(v, nl)
+            if den != 0:
+                q1 = float(VV.phase_quotient(v * TINY, "nl_dl.dat"))
+                if not (np.isfinite(q1) and abs(q1 - num / den) <= 1e-12):
+                    R.fail(f"phase quotient of a field of norm ~1e-12 = {q1!r}, sum dots / sum |dots| = {num / den!r}", sig=dict(sg, clause="pq"), exp=num / den, obs=q1)
+                    break
+            outs.append(float(pr0))
+        os.remove("nl_dl.dat")
+        R.outcome(np.array(outs))
+        R.elem = 3 * len(outs)
+        R.nontrivial = len(set(np.round(outs, 9))) > 1
+        return R
+    n, d, k = case["n"], case["d"], case["k"]
+    sc = DILATIONS[case["dil"]]
+    V = bases(n * d)[case["basis"]][:, :k].copy()
+    fr = np.array([FREQS[c % 3] for c in range(k)])
+    base = np.asarray(VV.vibrability(fr, V, n))
+    got = np.asarray(VV.vibrability(fr * sc, V * TINY, n))
+    want = base * TINY * TINY / sc / sc
+    if got.shape != base.shape or not np.allclose(got, want, rtol=1e-12, atol=0.0):
+        R.fail(f"vibrability with eigenvectors x 2^-40 and frequencies x {sc} != undilated x 2^-80 / scale^2", sig={"kind": kind, "d": d, "clause": "vibrability", "scale": "tiny" if sc < 1 else "huge"},
+               exp=want, obs=got)
+    R.outcome(base)
+    R.elem = n
+    return R
+
+
+# =========================================================================================== C15.sequence
+# L6: words over complete calls chosen so that pairs collide in plausible incomplete memo keys; every word in a forked child with re-imported library
+# modules; oracle: every call returns bit for bit what the same call returns when made FIRST in a fresh child.
+def _seq_letters():
+    L = []
+    L.append({"id": "pr_a", "fn": "pr", "n": 4, "d": 2, "f": 0})
+    L.append({"id": "pr_b", "fn": "pr", "n": 4, "d": 2, "f": 1})                      # same shape / other content
+    L.append({"id": "pr_c", "fn": "pr", "n": 2, "d": 4, "f": 0})                      # same number of entries / other shape
+    L.append({"id": "al_a", "fn": "align", "nl": "A", "f": 0})
+    L.append({"id": "al_b", "fn": "align", "nl": "B", "f": 0})                       # same file NAME / other lists
+    L.append({"id": "al_c", "fn": "align", "nl": "A", "f": 1})                       # same lists / other field
+    L.append({"id": "pq_a", "fn": "pq", "nl": "A", "f": 1})
+    L.append({"id": "pq_b", "fn": "pq", "nl": "B", "f": 1})
+    L.append({"id": "dc_a", "fn": "dc", "d": 3, "cell": "orth", "ppp": [1, 1, 1], "nl": "A"})
+    L.append({"id": "dc_b", "fn": "dc", "d": 3, "cell": "tri", "ppp": [1, 1, 1], "nl": "A"})   # same diagonal / tilted
+    L.append({"id": "dc_c", "fn": "dc", "d": 3, "cell": "orth", "ppp": [1, 0, 1], "nl": "A"})  # other mask
+    L.append({"id": "dc_d", "fn": "dc", "d": 2, "cell": "orth", "ppp": [1, 1], "nl": "B"})     # 2D after 3D
+    L.append({"id": "vb_a", "fn": "vib", "fr": 0})
+    L.append({"id": "vb_b", "fn": "vib", "fr": 1})                                   # same modes / other frequencies
+    L.append({"id": "de_a", "fn": "dec", "d": 3, "box": "cube", "q": "shells", "f": 0})
+    L.append({"id": "de_b", "fn": "dec", "d": 3, "box": "rect", "q": "shells", "f": 0})   # same wave-vector list / other box
+    L.append({"id": "de_c", "fn": "dec", "d": 3, "box": "cube", "q": "mixed", "f": 0})    # same box / other list of the same length class
+    L.append({"id": "de_d", "fn": "dec", "d": 3, "box": "cube", "q": "shells", "f": 1})   # other field, same output file name
+    L.append({"id": "de_e", "fn": "dec", "d": 2, "box": "cube", "q": "shells", "f": 0})
+    L.append({"id": "co_a", "fn": "corr", "d": 2, "steps": "even", "f": 0})
+    L.append({"id": "co_b", "fn": "corr", "d": 2, "steps": "uneven", "f": 0})           # same N, first and last timestep equal / other interior
+    L.append({"id": "co_c", "fn": "corr", "d": 2, "steps": "even", "f": 1})             # other fields, same output prefix
+    return L
+
+
+SEQ_LETTERS = _seq_letters()
+SEQ_IDS = [l["id"] for l in SEQ_LETTERS]
+SEQ_QUICK = ["pr_a", "pr_c", "al_a", "al_b", "pq_a", "pq_b", "dc_a", "dc_b", "dc_d", "vb_a", "vb_b", "de_a", "de_b", "de_c", "de_d", "co_a", "co_b", "co_c"]
+SEQ_NL = {"A": [[1, 2], [0], [1, 0]], "B": [[2], [2, 0], [0, 1]]}
+SEQ_STEPS = {"even": [0, 20, 40], "uneven": [0, 10, 40]}
+
+
+def _seq_field(seed, n, d, f):
+    return X.garray(seed, f"c15q{n}{d}f{f}_", (n, d), 1.0)
+
+
+def _seq_call(seed, lt):
+    from PyMatterSim.static import vector as VV
+
+    fn = lt["fn"]
+    if fn == "pr":
+        return [float(VV.participation_ratio(_seq_field(seed, lt["n"], lt["d"], lt["f"])))]
+    if fn in ("align", "pq"):
+        write_neighbor_file("nl_c15q.dat", [SEQ_NL[lt["nl"]]])
+        v = _seq_field(seed, 3, 3, lt["f"])
+        if fn == "align":
+            return [np.asarray(VV.local_vector_alignment(v, "nl_c15q.dat")).tolist()]
+        return [float(VV.phase_quotient(v, "nl_c15q.dat"))]
+    if fn == "dc":
+        d = lt["d"]
+        H = cell15(d, lt["cell"])
+        pos = np.array(A.generic_points(seed, 3, d, tag=f"c15qdc{d}_")) @ H
+        write_neighbor_file("nl_c15q.dat", [SEQ_NL[lt["nl"]]])
+        res = VV.divergence_curl(mk_snap(pos, H, [1] * 3), _seq_field(seed, 3, d, 0), np.array(lt["ppp"]), "nl_c15q.dat")
+        return [np.asarray(res).tolist()] if d == 2 else [np.asarray(res[0]).tolist(), np.asarray(res[1]).tolist()]
+    if fn == "vib":
+        V = bases(6)["householder"][:, :4]
+        fr = np.array([[1.0, 2.0, 0.5, 1.5], [2.0, 1.0, 1.5, 0.5]][lt["fr"]])
+        return [np.asarray(VV.vibrability(fr, V, 3, outputfile="vib_c15q.npy")).tolist()]
+    if fn == "dec":
+        d = lt["d"]
+        Lb = box_for(d, lt["box"])
+        pos = np.array(positions(seed, 3, d, Lb, "seq" + lt["box"]))
+        tab, ave = VV.vector_decomposition_sq(mk_snap(pos, np.diag(Lb), [1] * 3), np.array(QLISTS[d][lt["q"]]), _seq_field(seed, 3, d, lt["f"]), outputfile="dec_c15q")
+        return [_ctab(tab), X3.frame_to_json(ave), open("dec_c15q.csv").read()]
+    d = lt["d"]
+    Lb = box_for(d, "cube")
+    steps = SEQ_STEPS[lt["steps"]]
+    base = np.array(positions(seed, 3, d, Lb, "seqc"))
+    frames = [base + 0.3 * t * _seq_field(seed, 3, d, 7) for t in range(3)]
+    vecs = np.array([_seq_field(seed, 3, d, 10 * lt["f"] + t) for t in range(3)])
+    res = VV.vector_fft_corr(mk_snaps([p.tolist() for p in frames], np.diag(Lb), [1] * 3, steps=steps), np.array(QLISTS[d]["shells"]), vecs, dt=0.5, outputfile="corr_c15q")
+    return [X3.frame_to_json(res[h]) for h in ("FFT", "T_FFT", "L_FFT")] + [open("corr_c15q.spectra.csv").read()]
+
+
+def _ctab(df):
+    """DataFrame with complex columns -> JSON-able (real and imaginary parts, exact)"""
+    v = df.values.astype(complex)
+    return {"columns": [str(c) for c in df.columns], "re": v.real.tolist(), "im": v.imag.tolist()}
+
+
+SEQ_FILES = ("nl_c15q.dat", "vib_c15q.npy", "dec_c15q.csv", "corr_c15q.spectra.csv", "corr_c15q.FFT.npy", "corr_c15q.T_FFT.npy", "corr_c15q.L_FFT.npy")
+
+
+def _seq_eval(case):
+    for f in SEQ_FILES:  # files left by a call stay in place for the later calls of the word (a stale file is part of the state), not across words
+        if os.path.exists(f):
+            os.remove(f)
+    try:
+        return [_seq_call(case["seed"], SEQ_LETTERS[k]) for k in case["word"]]
+    finally:
+        for f in SEQ_FILES:
+            if os.path.exists(f):
+                os.remove(f)
+
+
+SEQ_CORE = ["pr_a", "pr_c", "al_a", "al_b", "dc_a", "dc_b", "vb_a", "vb_b", "de_a", "de_b", "de_d", "co_a", "co_c"]  # letters of the length-3 words (thorough)
+
+
+def gen_sequence(tier, seed):
+    if tier == "quick":
+        idx = [SEQ_IDS.index(i) for i in SEQ_QUICK]
+    else:
+        idx = list(range(len(SEQ_LETTERS)))
+    for Lw in (1, 2):
+        for word in itertools.product(idx, repeat=Lw):
+            yield {"part": "sequence", "word": list(word), "seed": seed}
+    if tier != "quick":
+        core = [SEQ_IDS.index(i) for i in SEQ_CORE]
+        for word in itertools.product(core, repeat=3):
+            if len(set(word)) == 1 or len({SEQ_LETTERS[k]["fn"] for k in word}) == 3:
+                continue  # length 3: words that return to a routine or stay within two routines
+            yield {"part": "sequence", "word": list(word), "seed": seed}
+
+
+_SEQ_FRESH = {}
+
+
+def run_sequence(case):
+    import json as _json
+
+    R = Result()
+    seed = case["seed"]
+    names = [SEQ_IDS[k] for k in case["word"]]
+    payload = X3.fresh_child(_seq_eval, case, Y.SEQ_MODS)
+    if "err" in payload:
+        R.fail(f"call sequence {names} raised {payload['err']}", sig={"part": "sequence", "exception": True})
+        return R
+    for k in set(case["word"]):
+        if (seed, k) not in _SEQ_FRESH:
+            one = X3.fresh_child(_seq_eval, {"seed": seed, "word": [k]}, Y.SEQ_MODS)
+            if "err" in one:
+                R.fail(f"single call {SEQ_IDS[k]} raised {one['err']}", sig={"part": "sequence", "exception": True})
+                return R
+            _SEQ_FRESH[(seed, k)] = _json.dumps(one["ok"][0], sort_keys=True)
+    states = set()
+    nel = 0
+    for pos_, (k, got) in enumerate(zip(case["word"], payload["ok"])):
+        lt = SEQ_LETTERS[k]
+        g = _json.dumps(got, sort_keys=True)
+        if g != _SEQ_FRESH[(seed, k)]:
+            R.fail(f"call #{pos_ + 1} ({lt['id']}: {lt['fn']}) of the sequence {names} differs from the same call made first in a fresh process (earlier calls: {names[:pos_]})",
+                   sig={"part": "sequence", "fn": lt["fn"], "position": "later" if pos_ else "first"}, exp=_SEQ_FRESH[(seed, k)][:300], obs=g[:300])
+        states.add(g[:4000])
+        nel += len(g) // 20
+    R.outcome(sorted(states), nd=9)
+    R.states = len(case["word"]) + 1
+    R.transitions = len(case["word"])
+    R.elem = nel
+    R.nontrivial = True
+    return R
+
+
 # ----------------------------------------------------------------------------------------------------------
 def subs(tier, seed):
     q = tier == "quick"
@@ -994,6 +1470,28 @@ def subs(tier, seed):
             rule="E2: BFS over frame-append histories, " + ("3 field letters, T<=3" if q else "4 field letters, T<=4") + " (split by first letter), x {2D,3D} x 2 wave-vector "
                  "lists x {even, uneven} timesteps x {static, moving} positions x dt; invariant in every state: FFT/T_FFT/L_FFT tables == reference time "
                  "correlation (C14 model) of the reference transforms, C(0)==1, time axis, .npy files, spectra file"),
+        Sub("C15.forms", gen_forms, run_forms,
+            rule="round 4 - L5: every field of {-1,0,1}^(N d) for (3,2),(2,3) stored as float32 / int64 / int32 / int8 (PR; alignment and phase quotient on 8 + 4 topologies); "
+                 "divergence / curl (N=3" + ("" if q else ",4") + ", {2D,3D} x {orthogonal, triclinic} x all masks x " + ("6" if q else "12") + " topologies) with the field as float32 / int64 / int32 / "
+                 "int8, positions Fortran-ordered, ppp as list / int32 / int8; vibrability with float32 / integer eigenvector matrices and integer frequencies; decomposition and "
+                 "fft_corr with integer / float32 fields.  L7: divergence / curl, decomposition and fft_corr with particles displaced by whole cell vectors n H, n in {0,+2,-3,+4} per "
+                 "particle and axis (periodic axes only; fft_corr: frame 0 folded, later frames unfolded) - reference AND equality with the folded input.  L8: dt = 0.0 / 0.  Coverage gaps: "
+                 "vector_decomposition_sq(outputfile ending in .csv / plain / dotted / '.csv.bak'), vector_fft_corr(outputfile '' - tables only, no file demanded - and dotted).  Real fields only",
+            bounds={"dtypes": Y.FIELD_DTYPES, "unwrap_n": Y.UNWRAP_N}),
+        Sub("C15.dilation", gen_dilation, run_dilation,
+            rule="L9 absolute scale: divergence / curl with positions, cell and field multiplied by 2^-33 and 2^27 (N in {3,4} x {2D,3D} x {orthogonal, TILTED} x all masks x 6 "
+                 "topologies x 11 fields): values / scale^2 == undilated library values == reference (1e-9); every field of {-1,0,1}^(N d) (graded magnitudes) for (3,2),(2,3) "
+                 "multiplied by 2^-40 (norms ~1e-12) on 4 topologies: PR and phase quotient unchanged (1e-12), alignment == 2^-80 x alignment (exact); vibrability with eigenvectors "
+                 "x 2^-40 and frequencies x scale.  The Fourier-space routines round to 8 decimals (documented): not scale-covariant, not part of this slice",
+            bounds={"scales": ["2^-33", "2^27"], "tiny_norm": "2^-40"}),
+        Sub("C15.sequence", gen_sequence, run_sequence,
+            rule="L6 explicit-state search over CALL SEQUENCES: all words of length <= 2 over " + ("18" if q else "22 complete calls and all words of length 3 over a core of 13 (that return to a routine "
+                 "or stay within two routines)") + " complete calls (PR: same shape / other content, same size / "
+                 "other shape; alignment and phase quotient: the same neighbour-file NAME with two contents, other field; divergence-curl: same cell diagonal / tilted, other "
+                 "mask, 2D after 3D; vibrability: same modes / other frequencies; decomposition: same wave vectors / other box, same box / other list, other field with the same output "
+                 "name, 2D; fft_corr: same first and last timestep / other interior, other fields with the same output prefix), each word in a forked child with re-imported library "
+                 "modules, output files of earlier calls left in place; every call must return (and write) bit for bit what the same call does when made first in a fresh child",
+            bounds={"depth": 2 if q else 3, "letters": 18 if q else len(SEQ_LETTERS)}),
         Sub("C15.scale", gen_scale, run_scale,
             rule="SIZE enumeration (one fixed generic value pattern per size): PR / alignment / phase quotient / divergence-curl with N in "
                  + str(SCALE_N) + " x {2D,3D} x ragged harness-written lists {max coordination at the first / last particle only, formula, one "
